@@ -37,7 +37,7 @@ def gen(rng):
         ops = []
         for _ in range(rng.randint(1, 4)):
             ops.append(rng.choice(["submit", "submit", "submit_nested", "submit_nested", "cancel", "addcb", "addcb_nested", "result",
-                                   "submit_blocked", "addcb_nested", "submit_inner_nested"]))
+                                   "submit_blocked", "addcb_nested", "submit_inner_nested", "submit_noargs"]))
         progs.append(ops)
     return {"base": rng.choice(["sync", "sync", "pool"]), "layers": layers, "progs": progs,
             "nested_in_map": rng.random() < 0.4, "shutdown": rng.random() < 0.4, "fail": rng.random() < 0.3,
@@ -156,6 +156,13 @@ def run_once(p, chooser):
                             futs.append(top.submit(with_nested))
                         elif op == "submit_blocked":
                             futs.append(top.submit(blocked))
+                        elif op == "submit_noargs":
+                            # a submit() that FAILS inside the library (no callable: TypeError from deep inside the gated section,
+                            # like a delegate that cannot start a thread): whatever it held must be released on the way out
+                            try:
+                                top.submit()
+                            except TypeError:
+                                pass
                         elif op == "submit_inner_nested":
                             # a user who also holds an INNER layer of the stack (here: the lowest more-executors layer, i.e. the
                             # sync base or the layer right above the thread pool) submits to it a callable that submits to the top
